@@ -205,8 +205,19 @@ func (s *SourceControl) runLaterIfActive(f func()) error {
 	if !s.isSourceActive {
 		return fmt.Errorf("no source is active")
 	}
-	s.queuedRequests <- f
-	return <-s.queuedResults
+	// The source may have stopped on its own (error block, timeout) since isSourceActive was last
+	// refreshed. Then no core loop will ever take the request, so never wait for that unconditionally.
+	for {
+		select {
+		case s.queuedRequests <- f:
+			return <-s.queuedResults
+		case <-time.After(20 * time.Millisecond):
+			if !s.ActiveSource.Running() {
+				s.handlePossibleStoppedSource()
+				return fmt.Errorf("no source is active")
+			}
+		}
+	}
 }
 
 // MixFractionObject is the RPC-usable structure for ConfigureMixFraction
